@@ -28,7 +28,11 @@ def random_universe(r):
             elif k < 0.7:
                 fs.extend([f"r{r.randrange(i)}"] * r.choice([1, 1, 2, 3]))
             else:
-                ms = r.sample(range(i), r.randrange(1, i + 1))
+                # members of a union reference may be ANY class of the universe, the holder's own class and later ones included
+                # (`_reftypes` is filled after the classes exist): self-loops and cycles, relative offset 0 when the slot is the
+                # first field of its own referent
+                pool = range(n) if r.random() < 0.5 else range(i)
+                ms = r.sample(pool, r.randrange(1, len(pool) + 1))
                 fs.extend(["u" + "+".join(map(str, ms))] * r.choice([1, 1, 1, 2]))
         u.append(fs)
     return u
@@ -46,6 +50,7 @@ class Classes:
         `U[n]`) - byte for byte the same layout, but read and written through array.py"""
         self.u, self.cls, self.names, self.where = u, [], [], []
         meta_s, meta_u = type(xo.Struct), type(xo.UnionRef)
+        late = []
         for i, fs in enumerate(u):
             d, where, k = {}, {}, 0
             while k < len(fs):
@@ -59,7 +64,8 @@ class Classes:
                     t = xo.Ref[self.cls[int(f[1:])]]
                 else:
                     ms = [int(x) for x in f[1:].split("+")]
-                    t = meta_u(f"Rg{tag}U{i}x{k}", (xo.UnionRef,), {"_reftypes": [self.cls[m] for m in ms]})
+                    t = meta_u(f"Rg{tag}U{i}x{k}", (xo.UnionRef,), {"_reftypes": []})
+                    late.append((t, ms))
                 n = 1
                 while arrays and k + n < len(fs) and fs[k + n] == f:
                     n += 1
@@ -75,6 +81,8 @@ class Classes:
             self.names.append(name)
             self.where.append(where)
             self.cls.append(meta_s(name, (xo.Struct,), d))
+        for t, ms in late:
+            t._reftypes = [self.cls[m] for m in ms]
 
     def get(self, o, ci, k):
         name, j = self.where[ci][k]
@@ -109,6 +117,10 @@ class CaseRun:
         self.raw = []              # (offset, size)
 
     def failure(self, key, what, prop="C08"):
+        if isinstance(prop, tuple):
+            for p_ in prop:
+                self.failure(key, what, p_)
+            return
         self.fail.append(common.Failure("oracle", f"{prop}:rg-{key}", what,
                                         {"component": "rg", "config": self.cfg, "universe": self.u, "ops": list(self.ops_done)}))
 
@@ -222,7 +234,7 @@ class CaseRun:
                 self.expect.append("ok " + self.state_line())
                 got = self.C.get(h, hci, k)
                 if got is None or got._offset != t._offset or got._buffer is not self.b:
-                    self.failure("alias-not-same-object", f"{what}: bound node at {t._offset}, the reference reads {got!r}")
+                    self.failure("alias-not-same-object", f"{what}: bound node at {t._offset}, the reference reads {got!r}", prop=("C08", "C10"))
                 if (cap, chunks) != (self.b.capacity, [(c.start, c.end) for c in self.b.chunks]):
                     self.failure("alias-allocated", f"{what}: binding an object of the same buffer allocated")
             elif kind == "bindnull":
@@ -232,7 +244,7 @@ class CaseRun:
                 self.C.set(h, hci, k, None)
                 self.expect.append("ok " + self.state_line())
                 if self.C.get(h, hci, k) is not None:
-                    self.failure("null-not-none", f"{what}: reads {self.C.get(h, hci, k)!r}")
+                    self.failure("null-not-none", f"{what}: reads {self.C.get(h, hci, k)!r}", prop=("C08", "C10"))
             elif kind == "bindval":
                 _, hi, k, ci, vs, variant = op
                 h, hci = self.handles[hi]
@@ -309,7 +321,7 @@ class CaseRun:
                         if int(a) != int(b):
                             self.failure("update-scalar", f"{what}: field {k} reads {b}, the source {a}", prop="C10")
                     elif (a is None) != (b is None) or (a is not None and (a._offset != b._offset or type(a) is not type(b))):
-                        self.failure("update-referent", f"{what}: field {k} denotes {b!r}, the source's {a!r}")
+                        self.failure("update-referent", f"{what}: field {k} denotes {b!r}, the source's {a!r}", prop=("C08", "C10"))
             elif kind == "alloc":
                 _, n, al = op
                 self.emit(f"alloc {n} {'aligned' if al else 'packed'}")
@@ -435,6 +447,11 @@ def corpus_cases():
          [("new", 0, [5]), ("new", 1, [9]), ("bindobj", 1, 1, 0), ("bindobj", 1, 4, 0), ("bindval", 1, 2, 0, [7], "plain"),
           ("bindval", 1, 3, 0, [8], "foreign"), ("copy", 1), ("bindnull", 1, 1), ("bindnull", 1, 4), ("upd", 4, 1),
           ("setvia", 4, 2, 0, 99), ("upd", 1, 4), ("alloc", 300, True), ("setvia", 1, 3, 0, 98)]),
+        # a union reference, first field of its struct, bound to that very struct (relative offset 0), to a later class, a cycle
+        ({"kind": "numpy", "cap": 64, "align": 8, "grow_step": None}, [["s"], ["u1+2+0", "s", "u2"], ["u1", "s"]],
+         [("new", 1, [5]), ("bindobj", 0, 0, 0), ("setvia", 0, 0, 1, 6), ("new", 2, [7]), ("bindobj", 1, 0, 0), ("bindobj", 0, 2, 1),
+          ("setvia", 1, 0, 1, 8), ("copy", 0), ("upd", 2, 0), ("alloc", 200, True), ("setvia", 2, 0, 1, 9), ("bindnull", 0, 0),
+          ("bindval", 0, 0, 2, [3], "plain"), ("bindval", 0, 0, 1, [4], "foreign")]),
         # capacity 0, members listed in reverse order
         ({"kind": "numpy", "cap": 0, "align": 64, "grow_step": 1}, [["s"], ["s", "s"], ["u1+0", "u0"]],
          [("new", 2, []), ("new", 0, [8]), ("new", 1, [1, 2]), ("bindobj", 0, 0, 1), ("bindobj", 0, 1, 1), ("bindobj", 0, 0, 2),
